@@ -525,6 +525,10 @@ func imax(a, b int) int {
 	return b
 }
 
+// ldPads are the (first, second) leading-dimension paddings of routines with two
+// matrix arguments: packed, only one padded, and both padded differently.
+var ldPads = [][2]int{{0, 0}, {3, 0}, {0, 2}, {3, 5}}
+
 // uniq returns the sorted distinct values of s that satisfy v >= lo.
 func uniq(lo int, s ...int) []int {
 	var out []int
